@@ -245,3 +245,13 @@ mod tests {
         assert_relative_eq!(v, test.coords, epsilon = 1e-4);
     }
 }
+
+#[cfg(feature = "verif")]
+pub fn verif_to_matrix(q: &UnitQuaternion<f64>) -> Matrix3<f64> {
+    to_matrix(q)
+}
+
+#[cfg(feature = "verif")]
+pub fn verif_to_wpr(m: &Matrix3<f64>) -> (f64, f64, f64) {
+    to_wpr(m)
+}
